@@ -1,0 +1,32 @@
+//go:build verif
+
+// Contracts for package reserr, read by /verif/govc.
+package reserr
+
+// The code and message of an error value are set when it is created and never assigned again
+// (checked by the engine: no assignment to these fields exists in the loaded packages).
+//@ immutable Error.Code, Error.Message
+
+// predErrOK: a non-nil error that is not a nil *Error wrapped in an interface.
+//@ define predErrOK(err error) bool = err != nil && (typeis(err, *Error) ==> err.(*Error) != nil)
+
+// RESError: an *Error is passed through unchanged; anything else becomes a fresh
+// system.internalError.
+//@ func RESError
+//@   requires predErrOK(err)
+//@   ensures[C07,C17] typeis(err, *Error) ==> result == err.(*Error)
+//@   ensures[C07,C17] !typeis(err, *Error) ==> result != nil && fresh(result) && result.Code == CodeInternalError
+//@   assigns nothing
+//@   safety[C15]
+
+//@ func InternalError
+//@   requires err != nil
+//@   ensures[C07,C17] result != nil && fresh(result) && result.Code == CodeInternalError
+//@   assigns nothing
+//@   safety[C15]
+
+//@ func IsError
+//@   requires typeis(err, *Error) ==> err.(*Error) != nil
+//@   ensures[C12] result == (typeis(err, *Error) && err.(*Error).Code == code)
+//@   assigns nothing
+//@   safety[C15]
